@@ -132,12 +132,13 @@ def single_root(ctx, rule='C07.single-root'):
         du = ctx.du(fn)
         _, atoms = du.slice_operand(t['args'][0])
         from_header = has_field(atoms, 'TxInner', 'meta') or (has_field(atoms, 'Meta', 'root') and not has_field(atoms, 'InnerBucket', 'meta'))
-        if from_header and fn is not bf:
+        import c09
+        if from_header and fn is not bf and not c09.part_of(ctx, fn, c09.begin_fn(ctx)):
             res.append(bad(rule, '%s | bucket view built from the committed header root' % fn.qual,
                            '%s builds a bucket view at %s from the header root recorded when the transaction began instead of using the transaction\'s live root bucket: buckets created, deleted '
                            'or modified earlier in the same write transaction are not reflected' % (fn.qual, fn.loc(bb)), where=fn.loc(bb)))
         else:
-            res.append(ok(rule, 'bucket view at %s is %s' % (fn.loc(bb), 'the root view created at begin' if fn is bf else 'a child view whose meta comes from a lookup through the overlay'), sites=1))
+            res.append(ok(rule, 'bucket view at %s is %s' % (fn.loc(bb), 'the root view created at begin' if (fn is bf or from_header) else 'a child view whose meta comes from a lookup through the overlay'), sites=1))
     return res
 
 
@@ -301,6 +302,10 @@ def run(ctx, tier):
     results += exact_match_used(ctx)
     results += overlay_registered(ctx)
     results += scan_skips_empty(ctx)
+    import c08 as _c08
+    results += _c08.seek_reset(ctx, rule='C07.seek-reset')
+    results += _c08.bounds_total(ctx, rule='C07.range-bounds-total')
+    results += _c08.end_justified(ctx, rule='C07.range-end-justified')
     import c08
     results += c08.start_compare(ctx, rule='C07.range-start-compare')
     results += c08.index_agreement(ctx, rule='C07.index-agreement')
